@@ -202,7 +202,55 @@ func runPullScenario(c *Ctx, cooked bool, nops int) {
 	e.Finish()
 }
 
+// directed: a message whose connection fails under it may be lost, but must not turn up on another connection behind
+// messages that were accepted after it (never reordered within a connection, never duplicated)
+func runPushFailedSendNotResentLate(c *Ctx, cooked bool) {
+	var proto mangos.ProtocolBase
+	if cooked {
+		proto = push.NewProtocol()
+	} else {
+		proto = xpush.NewProtocol()
+	}
+	e := NewExec(c, "m.push", proto, "push")
+	lastOn := map[int]int{}
+	handed := map[int]int{}
+	look := func() {
+		for _, ev := range splitEvents(lastObs(e)) {
+			if ev.kind != "tx" {
+				continue
+			}
+			sq := seqOf(ev.msg)
+			if p, dup := handed[sq]; dup {
+				c.Violate(fmt.Sprintf("PUSH: message #%d handed to pipe %d and again to pipe %d", sq, p, ev.pipe), e.Replay())
+			}
+			handed[sq] = ev.pipe
+			if lastOn[ev.pipe] >= sq {
+				c.Violate(fmt.Sprintf("PUSH: pipe %d was handed message #%d after #%d — the message was in flight on a connection that failed and came back behind messages accepted after it", ev.pipe, sq, lastOn[ev.pipe]), e.Replay())
+			}
+			lastOn[ev.pipe] = sq
+		}
+	}
+	if e.AddPipe(401) != "ok" {
+		e.Finish()
+		return
+	}
+	e.Hold(401, true)
+	for seq := 1; seq <= 4; seq++ {
+		e.Send(0, nil, []byte{'p', byte(seq >> 8), byte(seq)})
+		look()
+	}
+	e.AddPipe(402)
+	look()
+	e.Release(401, false)
+	look()
+	e.Send(0, nil, []byte{'p', 0, 5})
+	look()
+	e.Finish()
+}
+
 func runPushPullScenarios(c *Ctx) {
+	runPushFailedSendNotResentLate(c, true)
+	runPushFailedSendNotResentLate(c, false)
 	n := 100
 	if c.Thorough() {
 		n = 2000
